@@ -268,7 +268,7 @@ func CheckC07(c *Ctx) {
 	if fi := c.fn("strategy/decorator", "StopLossStrategy", "Compute"); fi != nil {
 		c.lossTable(fi, "StopLoss")
 	}
-	run.Floor("table_points", 280)
+	run.Floor("table_points", 260)
 }
 
 func (c *Ctx) splitTable(fi *load.FuncInfo) {
@@ -555,6 +555,24 @@ func (c *Ctx) countActionsTable() {
 	}
 }
 
+// lossSpecs: the documented No-Loss / Stop-Loss transducers as conditional expressions over the
+// wrapped action a, the closing price c and the remembered level (0 = not invested). They are
+// compared with the closures for every action and every ordering of close, level and 0.
+var lossSpecs = []stepSpec{
+	{Site: "strategy/decorator.(*NoLossStrategy).Compute", Callee: "helper.Operate", Rule: "decision-table",
+		Params: []string{"a", "c"}, State: []string{"level"}, Enum: map[string][]string{"a": {"Buy", "Hold", "Sell"}},
+		Let: [][2]string{{"OPEN", "(level == 0 && a == Buy)"}, {"CLOSE", "(level != 0 && a == Sell && level < c)"}},
+		Updates: map[string]string{"level": "ite(OPEN, c, ite(CLOSE, 0, level))"},
+		Out:     "ite(OPEN, Buy, ite(CLOSE, Sell, Hold))",
+		Doc:     "Buy when not invested and the wrapped strategy says Buy (remember the close); Sell when invested, the wrapped strategy says Sell and the close is above the purchase close; Hold otherwise"},
+	{Site: "strategy/decorator.(*StopLossStrategy).Compute", Callee: "helper.Operate", Rule: "decision-table",
+		Params: []string{"a", "c"}, State: []string{"level"}, Enum: map[string][]string{"a": {"Buy", "Hold", "Sell"}},
+		Let: [][2]string{{"OPEN", "(level == 0 && a == Buy)"}, {"CLOSE", "(level != 0 && (a == Sell || c <= level))"}},
+		Updates: map[string]string{"level": "ite(OPEN, c * (1 - Percentage), ite(CLOSE, 0, level))"},
+		Out:     "ite(OPEN, Buy, ite(CLOSE, Sell, Hold))",
+		Doc:     "Buy when not invested and the wrapped strategy says Buy (remember close*(1-percentage)); Sell when invested and the wrapped strategy says Sell or the close is at or below the stop level; Hold otherwise"},
+}
+
 // lossTable checks the No-Loss / Stop-Loss transducers.
 func (c *Ctx) lossTable(fi *load.FuncInfo, kind string) {
 	run := c.Run
@@ -590,70 +608,11 @@ func (c *Ctx) lossTable(fi *load.FuncInfo, kind string) {
 	if !initOK {
 		c.violate("decision-table", site, "initial level", fi.Decl.Pos(), "the remembered level must start at 0 (not invested)")
 	}
-	aName, cName := m.Params[0], m.Params[1]
-	closing := sym.N(10)
-	pct := big.NewRat(1, 10)
-	cfg := map[string]sym.Expr{}
-	for _, r := range m.Reads {
-		if strings.HasSuffix(r, ".Percentage") {
-			cfg[r] = sym.Num{V: pct}
-		}
-	}
-	levels := []int64{0, 5, 10, 15}
-	for _, a := range actions {
-		for _, lv := range levels {
-			env := map[string]sym.Expr{aName: act(a), cName: closing, level: sym.N(lv)}
-			for k, v := range cfg {
-				env[k] = v
-			}
-			point := fmt.Sprintf("action=%s level=%d close=10", a, lv)
-			p := c.one(m, env, "decision-table", site, point, fi.Decl)
-			if p == nil {
-				return
-			}
-			got, _ := pathAction(p)
-			// specification
-			wantAct := "Hold"
-			var wantLevel *big.Rat // nil = unchanged
-			invested := lv != 0
-			switch kind {
-			case "NoLoss":
-				if !invested && a == "Buy" {
-					wantAct, wantLevel = "Buy", big.NewRat(10, 1)
-				} else if invested && a == "Sell" && lv < 10 {
-					wantAct, wantLevel = "Sell", new(big.Rat)
-				}
-			case "StopLoss":
-				if !invested && a == "Buy" {
-					wantAct = "Buy"
-					wantLevel = new(big.Rat).Mul(big.NewRat(10, 1), new(big.Rat).Sub(big.NewRat(1, 1), pct))
-				} else if invested && (a == "Sell" || 10 <= lv) {
-					wantAct, wantLevel = "Sell", new(big.Rat)
-				}
-			}
+	_ = level
+	for _, sp := range lossSpecs {
+		if strings.Contains(sp.Site, kind+"Strategy") {
+			c.checkStepSpecs([]stepSpec{sp})
 			run.Count("table_points", 1)
-			okAct := got == wantAct
-			okLevel := true
-			nv, has := p.Updates[level]
-			if wantLevel == nil {
-				if has {
-					v, ok := constOf(sym.Subst(nv, env))
-					okLevel = ok && v.Cmp(big.NewRat(lv, 1)) == 0
-				}
-			} else {
-				if !has {
-					okLevel = false
-				} else {
-					v, ok := constOf(sym.Subst(nv, env))
-					okLevel = ok && v.Cmp(wantLevel) == 0
-				}
-			}
-			run.Oblige(okAct && okLevel)
-			if !okAct {
-				c.violate("decision-table", site, point+"->"+got, lit.Pos(), fmt.Sprintf("%s at %s emits %s, the specification emits %s", kind, point, got, wantAct))
-			} else if !okLevel {
-				c.violate("decision-table", site, point+" level", lit.Pos(), fmt.Sprintf("%s at %s leaves the remembered level different from the specification", kind, point))
-			}
 		}
 	}
 	// the closing stream is the snapshots' Close, the action stream the inner strategy's
